@@ -1,24 +1,44 @@
 /-
 C11 — year-less timestamps receive the right year.
 
-Model: `S4V.Model.Year.processMissingYear off mtimeYear msgs after` (mirror of
-`SyslogProcessor::process_missing_year`), threshold `S4V.Gen.Consts.BACKWARDS_TIME_JUMP_S`
-regenerated from `BACKWARDS_TIME_JUMP_MEANS_NEW_YEAR`.
+Model: `S4V.Model.Year.processMissingYearL lead off mtimeYear msgs after` (mirror of
+`SyslogProcessor::process_missing_year`; `processMissingYear = processMissingYearL false`), a
+function of the control skeleton `S4V.Gen.Year` regenerated from the loop body (order of the jump
+test and the exits, comparison operators, year step, `--dt-after` break variants), of
+`S4V.Gen.Filter.dtAfterOrBefore`, and of the threshold `S4V.Gen.Consts.BACKWARDS_TIME_JUMP_S`
+regenerated from `BACKWARDS_TIME_JUMP_MEANS_NEW_YEAR`. Every theorem below goes through
+`S4V.Lemmas.Year.walk_eq_nf`, which unfolds the generated skeleton: a source edit that moves the
+start-of-file exit in front of the jump test, adds a break on `dt == --dt-after`, changes `>` to
+`>=`, the year step or the break variants regenerates different constants and the proofs fail.
+
+`Plain off ms`: every message is a real month/day other than 29 February (its line parses with
+every fill year). For plain files the loop reduces to its simple form (`walkNF_eq_walkS`).
 
 Proved here
-* `C11_last_year`    the last message is dated in the year of the mtime
+* `C11_last_year`    the last message of a plain file is dated in the year of the mtime
+                     (`C11_last_year_full_false`, `C11_last_feb29_lost`: not so for a trailing 29 February)
 * `C11_years`        every message gets its true year (hypotheses: no 29 February, the true
                      year never decreases, time never runs backwards by more than the
                      threshold, consecutive gaps < 365 days − threshold, mtime in the last
                      message's year); non-vacuity: `example` over two year boundaries
 * `C11_window`       the same with `--dt-after A`: exact description of which messages are
                      re-dated (all down to and including the first one before `A`)
-* `C11_monotone`     unconditional: the dates produced never step back by more than the threshold
+* `C11_monotone`     plain files, any order/mtime: the dates produced never step back by more than the threshold
 * `C11_threshold`    the generated threshold is 25 h
 * `C11_years_full_false`  the statement without the 29-February exclusion is FALSE of the model
                      (and of the code: witness replayed by vlib/props/C11.py), Issue #245
 * `C11_feb29_first_undated` a leading 29 February is never re-dated (the code then prints it
                      with the dummy year 1972)
+* `C11_refind_redates`  with text before the first message and a leading 29 February in a leap
+                     mtime year, the message after it is found again and dated one year early
+
+* `C11_skeleton`     the regenerated skeleton is: jump test, start-of-file exit, `--dt-after` test;
+                     `>` and `>`; `year - 1`; break on `OccursBefore` only
+* `start_exit_before_jump_misdates_first`  counter-model: with the start-of-file exit in front of
+                     the jump test, the first message of a file whose December→January wrap lies
+                     between message 1 and 2 is dated one year late
+* `break_on_equal_after_loses`  counter-model: with a break on `dt == --dt-after`, of two messages
+                     at the instant `A` only the later one is re-dated (`-a A`)
 
 Not modelled here (checked end to end by vlib/props/C11.py): where the mtime comes from
 per container, printing order, and that window/merge use the stored dates.
@@ -28,35 +48,78 @@ import S4V.Lemmas.Year
 namespace S4V.Props.YearSpec
 open S4V.Model.Time S4V.Model.Year S4V.Lemmas.Time S4V.Lemmas.Year
 open S4V.Gen.Consts
+open S4V.Gen.Year (Decision)
 
 /-- the generated `BACKWARDS_TIME_JUMP_MEANS_NEW_YEAR` is 25 hours -/
 theorem C11_threshold : BACKWARDS_TIME_JUMP_S = 25 * 3600 := by decide
 
-/-- The last message of the file is dated in the year of the file's mtime. -/
-theorem C11_last_year (off Y : Int) (ms : List Msg) (m : Msg) (after : Option Int)
-    (h : validDate Y m.mo m.day = true) :
-    (processMissingYear off Y (ms ++ [m]) after).getLast? = some (dateWith off Y m) := by
-  unfold processMissingYear fuelFor
+/-- the control skeleton regenerated from `process_missing_year` -/
+theorem C11_skeleton :
+    S4V.Gen.Year.DECISIONS = [.jump, .startExit, .afterFilter] ∧
+    S4V.Gen.Year.JUMP_TEST_BEFORE_START_EXIT = true ∧
+    S4V.Gen.Year.JUMP_LATER_STRICT = true ∧ S4V.Gen.Year.JUMP_DIFF_STRICT = true ∧
+    S4V.Gen.Year.JUMP_YEAR_STEP = -1 ∧
+    S4V.Gen.Year.AFTER_FILTER_BREAKS_ON = ["OccursBefore"] := by decide
+
+/-- `processMissingYearL` through the normal form of the loop (unfolds the generated skeleton) -/
+theorem pmy_nf (lead : Bool) (off Y : Int) (ms : List Msg) (after : Option Int) :
+    processMissingYearL lead off Y ms after
+      = walkNF BACKWARDS_TIME_JUMP_S off after (fuelFor ms) ms.reverse Y none [] := by
+  unfold processMissingYearL processMissingYearG
+  rw [← walk_eq_nf lead]
+  rfl
+
+/-- every message of the file is a real month/day other than 29 February -/
+def Plain (off : Int) (ms : List Msg) : Prop := ∀ m ∈ ms, AlwaysParse off m
+
+theorem alwaysParse_of_valid (off y : Int) (m : Msg) (h : validDate y m.mo m.day = true)
+    (h29 : ¬ (m.mo = 2 ∧ m.day = 29)) : AlwaysParse off m := by
+  intro y'
+  have := valid_shift y y' m.mo m.day h29 h
+  refine ⟨daysFromCivil y' m.mo m.day * 86400 + m.sod - off, ?_⟩
+  simp [dateWith, this]
+
+/-- for a plain file: the simple form of the loop, in file order -/
+theorem pmy_simple (lead : Bool) (off Y : Int) (ms : List Msg) (after : Option Int) (hp : Plain off ms) :
+    processMissingYearL lead off Y ms after
+      = (walkS BACKWARDS_TIME_JUMP_S off after (fuelFor ms) ms.reverse Y none).reverse := by
+  rw [pmy_nf, walkNF_eq_walkS _ _ _ _ _ _ _ _ (by intro m hm; exact hp m (by simpa using hm)) (by simp)
+    (by intro _ m e r h; cases h)]
+  simp
+
+/-- The last message of a plain file is dated in the year of the file's mtime. (Not so when the
+last line is a 29 February: `C11_last_feb29_lost`.) -/
+theorem C11_last_year (lead : Bool) (off Y : Int) (ms : List Msg) (m : Msg) (after : Option Int)
+    (hp : Plain off (ms ++ [m])) :
+    (processMissingYearL lead off Y (ms ++ [m]) after).getLast? = some (dateWith off Y m) := by
+  rw [pmy_simple lead off Y _ after hp]
+  unfold fuelFor
   rw [List.reverse_append]
   simp only [List.reverse_cons, List.reverse_nil, List.nil_append, List.singleton_append]
-  have hd : dateWith off Y m = some (daysFromCivil Y m.mo m.day * 86400 + m.sod - off) := by
-    simp [dateWith, h]
-  unfold walk
-  simp only [findParse, hd, jumped, Bool.false_eq_true, if_false, List.replicate, List.nil_append]
+  obtain ⟨dt, hd⟩ := hp m (by simp) Y
+  unfold walkS
+  simp only [findParse, hd, jumpedNF, Bool.false_eq_true, if_false, List.length_nil, List.replicate, List.nil_append]
   simp
 
 /-- a file (in file order) of messages with their true years, acceptable to `C11_years` -/
 def WellDated (ts : List TMsg) : Prop :=
   (∀ t ∈ ts, t.Ok) ∧ Adj (Step BACKWARDS_TIME_JUMP_S) ts
 
+theorem plain_of_wellDated (off : Int) (ts : List TMsg) (hw : WellDated ts) : Plain off (ts.map TMsg.msg) := by
+  intro m hm
+  simp at hm
+  obtain ⟨t, ht, rfl⟩ := hm
+  have h := hw.1 t ht
+  exact alwaysParse_of_valid off t.y t.msg h.1 h.2.1
+
 /-- **C11 (years).** If no message is a 29 February, the true year never decreases along the
 file, time never runs backwards by more than 25 h, consecutive messages are less than
 365 days − 25 h apart, and the mtime lies in the last message's year, then every message is
 dated with its true year (so the year steps back exactly at each December→January wrap). -/
-theorem C11_years (off Y : Int) (ts : List TMsg) (hw : WellDated ts)
+theorem C11_years (lead : Bool) (off Y : Int) (ts : List TMsg) (hw : WellDated ts)
     (hY : ∀ t, ts.getLast? = some t → Y = t.y) :
-    processMissingYear off Y (ts.map TMsg.msg) none = ts.map fun t => some (t.instant off) := by
-  unfold processMissingYear
+    processMissingYearL lead off Y (ts.map TMsg.msg) none = ts.map fun t => some (t.instant off) := by
+  rw [pmy_simple lead off Y _ none (plain_of_wellDated off ts hw)]
   rw [← List.map_reverse]
   have hadj : Adj (fun b a => Step BACKWARDS_TIME_JUMP_S a b) ts.reverse :=
     (adj_reverse (fun b a => Step BACKWARDS_TIME_JUMP_S a b) ts).mpr hw.2
@@ -71,11 +134,11 @@ theorem C11_years (off Y : Int) (ts : List TMsg) (hw : WellDated ts)
 /-- **C11 (window).** With `--dt-after A` the backward pass stops at the first message (walking
 back) that is before `A`: that message and all later ones carry their true dates, earlier
 ones are left undated (`none`) — they are before the window in a chronological file. -/
-theorem C11_window (off Y : Int) (after : Option Int) (ts : List TMsg) (hw : WellDated ts)
+theorem C11_window (lead : Bool) (off Y : Int) (after : Option Int) (ts : List TMsg) (hw : WellDated ts)
     (hY : ∀ t, ts.getLast? = some t → Y = t.y) :
-    processMissingYear off Y (ts.map TMsg.msg) after
+    processMissingYearL lead off Y (ts.map TMsg.msg) after
       = (stopSpec after (ts.reverse.map (TMsg.instant off))).reverse := by
-  unfold processMissingYear
+  rw [pmy_simple lead off Y _ after (plain_of_wellDated off ts hw)]
   rw [← List.map_reverse]
   have hadj : Adj (fun b a => Step BACKWARDS_TIME_JUMP_S a b) ts.reverse :=
     (adj_reverse (fun b a => Step BACKWARDS_TIME_JUMP_S a b) ts).mpr hw.2
@@ -101,11 +164,13 @@ example : WellDated sample := by
 example : processMissingYear 0 2021 (sample.map TMsg.msg) none = sample.map fun t => some (t.instant 0) := by
   decide
 
-/-- **C11 (monotone).** Whatever the file and the mtime, the dates stored by the pass never
-step back by more than the threshold from one dated message to the next dated one. -/
-theorem C11_monotone (off Y : Int) (ms : List Msg) (after : Option Int) :
-    Adj (fun a b => a ≤ b + BACKWARDS_TIME_JUMP_S) ((processMissingYear off Y ms after).filterMap id) := by
-  unfold processMissingYear
+/-- **C11 (monotone).** Whatever the mtime and the order of a plain file's messages, the dates
+stored by the pass never step back by more than the threshold from one dated message to the next
+dated one. (With 29 February lines the statement is not proved: a sysline found with a common
+fill year also takes following 29 February lines that were stored with a leap year, `blank`.) -/
+theorem C11_monotone (lead : Bool) (off Y : Int) (ms : List Msg) (after : Option Int) (hp : Plain off ms) :
+    Adj (fun a b => a ≤ b + BACKWARDS_TIME_JUMP_S) ((processMissingYearL lead off Y ms after).filterMap id) := by
+  rw [pmy_simple lead off Y ms after hp]
   rw [List.filterMap_reverse, adj_reverse]
   exact (walk_revOK BACKWARDS_TIME_JUMP_S off after (by decide) (fuelFor ms) ms.reverse Y none).1
 
@@ -138,5 +203,90 @@ theorem C11_years_full_false : ¬ C11_years_full := by
 (the forward pass then parses it with the dummy year 1972) -/
 theorem C11_feb29_first_undated :
     processMissingYear 0 2025 [⟨2, 29, 43200⟩, ⟨1, 5, 1800⟩] none = [none, some 1736037000] := by decide
+
+/-- a 29 February as LAST line, mtime in a leap year: it is stored with the leap year, then the
+message before it steps the year back (December→…) and, re-read with the common year, takes the
+29 February line as a continuation line — the last message loses its sysline (found by the
+in-process correspondence; same root as Issue #245) -/
+theorem C11_last_feb29_lost :
+    processMissingYear 0 2044 [⟨10, 31, 0⟩, ⟨2, 29, 0⟩] none = [some 2329862400, none] := by decide   -- 2043-10-31
+
+/-- `C11_last_year` without the plain-file hypothesis is false of the model (and of the code) -/
+theorem C11_last_year_full_false :
+    ¬ (∀ (off Y : Int) (ms : List Msg) (m : Msg), validDate Y m.mo m.day = true →
+        (processMissingYear off Y (ms ++ [m]) none).getLast? = some (dateWith off Y m)) := by
+  intro h
+  have := h 0 2044 [⟨10, 31, 0⟩] ⟨2, 29, 0⟩ (by decide)
+  revert this
+  decide
+
+/-- text before the first message and a 29 February first: the message after it is found AGAIN
+after the year was stepped back for the 29 February, and is re-dated one year early -/
+theorem C11_refind_redates :
+    processMissingYearL true 0 2004 [⟨2, 29, 0⟩, ⟨1, 4, 0⟩, ⟨1, 15, 0⟩] none
+      = [none, some 1041638400, some 1074124800] := by decide   -- 2003-01-04, 2004-01-15
+
+/-! ### counter-models: what the two planted defects of the loop body do -/
+
+/-- planted defect 1: `if fo_prev < charsz_fo { break; }` moved in front of the jump test -/
+def skelStartExitFirst : Skel := { skel with decisions := [.startExit, .jump, .afterFilter] }
+
+/-- With the start-of-file exit in front of the jump test the first message of the file is never
+compared with its successor: a 2-message file whose first message, read with the mtime's year `Y`,
+is more than the threshold AFTER the second one (the December→January wrap lies between them)
+keeps the year `Y` for message 1 — one year late; the stored dates then step back by more than the
+threshold, i.e. `C11_monotone` is false of that skeleton. -/
+theorem start_exit_before_jump_misdates_first (off Y : Int) (m1 m2 : Msg) (t1 t2 : Int)
+    (h1 : dateWith off Y m1 = some t1) (h2 : dateWith off Y m2 = some t2)
+    (hwrap : t1 - t2 > BACKWARDS_TIME_JUMP_S) :
+    processMissingYearG skelStartExitFirst false off Y [m1, m2] none = [some t1, some t2] ∧
+      ¬ Adj (fun a b => a ≤ b + BACKWARDS_TIME_JUMP_S)
+          ((processMissingYearG skelStartExitFirst false off Y [m1, m2] none).filterMap id) := by
+  have hres : processMissingYearG skelStartExitFirst false off Y [m1, m2] none = [some t1, some t2] := by
+    simp [processMissingYearG, fuelFor, walkG, findParse, h1, h2, verdict, verdictL, decision,
+      skelStartExitFirst, skel, jumpedG, breaksAfterG, afterVariant, S4V.Gen.Filter.dtAfterOrBefore,
+      S4V.Gen.Year.AFTER_FILTER_BREAKS_ON, blank]
+  refine ⟨hres, ?_⟩
+  rw [hres]
+  simp only [List.filterMap_cons, id, List.filterMap_nil, Adj]
+  omega
+
+/-- the same file under the skeleton of the current source: message 1 is re-read with `Y - 1` -/
+theorem current_source_dates_first (off Y : Int) (m1 m2 : Msg) (t1 t2 t1' : Int)
+    (h1 : dateWith off Y m1 = some t1) (h2 : dateWith off Y m2 = some t2)
+    (hwrap : t1 - t2 > BACKWARDS_TIME_JUMP_S)
+    (h1' : dateWith off (Y - 1) m1 = some t1') (h2' : (dateWith off (Y - 1) m2).isSome = true) (hle : t1' ≤ t2) :
+    processMissingYear off Y [m1, m2] none = [some t1', some t2] := by
+  unfold processMissingYear
+  rw [pmy_nf]
+  have hlt : t2 < t1 := by have : (0 : Int) < BACKWARDS_TIME_JUMP_S := by decide
+                           omega
+  have hnj : ¬ (t2 < t1' ∧ BACKWARDS_TIME_JUMP_S < t1' - t2) := by omega
+  simp [fuelFor, walkNF, findParse, refind, blank, h1, h2, h1', h2', jumpedNF, beforeWindow, hlt, hwrap, hnj]
+
+example : processMissingYearG skelStartExitFirst false 0 2021 [⟨12, 31, 86399⟩, ⟨1, 1, 0⟩] none
+    = [some 1640995199, some 1609459200] := by decide   -- 2021-12-31T23:59:59 (wrong), 2021-01-01T00:00:00
+
+example : processMissingYear 0 2021 [⟨12, 31, 86399⟩, ⟨1, 1, 0⟩] none
+    = [some 1609459199, some 1609459200] := by decide   -- 2020-12-31T23:59:59
+
+/-- planted defect 2: an extra `if filter_dt_after_opt.as_ref() == Some(syslinep.dt()) { break; }` -/
+def skelBreakOnEqual : Skel := { skel with decisions := [.jump, .startExit, .equalAfter, .afterFilter] }
+
+/-- With a break on `dt == --dt-after`, of two messages at the same instant `A` only the later one
+is re-dated under `-a A`; the earlier one — inside the window — keeps the filler year. -/
+theorem break_on_equal_after_loses (lead : Bool) (off Y : Int) (m : Msg) (A : Int)
+    (h : dateWith off Y m = some A) :
+    processMissingYearG skelBreakOnEqual lead off Y [m, m] (some A) = [none, some A] := by
+  simp [processMissingYearG, fuelFor, walkG, findParse, h, verdict, verdictL, decision,
+    skelBreakOnEqual, skel, jumpedG, blank]
+
+/-- the current source re-dates both -/
+theorem current_source_keeps_equal (lead : Bool) (off Y : Int) (m : Msg) (A : Int)
+    (h : dateWith off Y m = some A) :
+    processMissingYearL lead off Y [m, m] (some A) = [some A, some A] := by
+  rw [pmy_nf]
+  have hJ : ¬ (BACKWARDS_TIME_JUMP_S < 0) := by decide
+  simp [fuelFor, walkNF, findParse, refind, blank, h, jumpedNF, beforeWindow, hJ]
 
 end S4V.Props.YearSpec
